@@ -34,8 +34,13 @@ def run_one(lp, S, a):
     res = {"case": a}
     got = []
     pulled = {"n": 0}
+    class Boom(BaseException):
+        """a failure that is not an `Exception` (like SystemExit, KeyboardInterrupt, GeneratorExit, a pyo3 panic)"""
     def f(x):
         if x in fail:
+            kind = a.get("fail_kind", "RuntimeError")
+            if kind == "SystemExit": raise SystemExit(f"boom {x}")
+            if kind == "BaseException": raise Boom(f"boom {x}")
             raise RuntimeError(f"boom {x}")
         return x * 10
     orig_get = None
@@ -59,7 +64,7 @@ def run_one(lp, S, a):
                         break
         except S.Deadlock:
             status = "DEADLOCK"
-        except RuntimeError as e:
+        except (RuntimeError, SystemExit, Boom) as e:
             status = "raised"
             res["exc"] = str(e)
         sch.finish()
@@ -157,7 +162,8 @@ def gen_cases(ctx):
                     cases.append({"T": T, "n": n, "stop_after": k, "seed": rng.randrange(1 << 30), "reuse": True})
             # failing inputs at sampled positions
             for i in sorted({0, n // 2, n - 1}) if n else []:
-                cases.append({"T": T, "n": n, "fail": [i], "seed": rng.randrange(1 << 30), "reuse": True})
+                cases.append({"T": T, "n": n, "fail": [i], "seed": rng.randrange(1 << 30), "reuse": True,
+                              "fail_kind": ["RuntimeError", "SystemExit", "BaseException"][(T + n + i) % 3]})
         # infinite source with early exit
         for k in [1, P, P + 3]:
             cases.append({"T": T, "n": None, "stop_after": k, "seed": rng.randrange(1 << 30), "reuse": True})
@@ -167,7 +173,8 @@ def gen_cases(ctx):
             c = {"T": T, "n": n, "seed": rng.randrange(1 << 30), "reuse": rng.random() < 0.3}
             r = rng.random()
             if r < 0.35 and n: c["stop_after"] = rng.randrange(1, n + 1)
-            elif r < 0.6 and n: c["fail"] = sorted({rng.randrange(n) for _ in range(rng.choice([1, 1, 2]))})
+            elif r < 0.6 and n:
+                c["fail"] = sorted({rng.randrange(n) for _ in range(rng.choice([1, 1, 2]))}); c["fail_kind"] = rng.choice(["RuntimeError", "SystemExit", "BaseException"])
             cases.append(c)
     return cases
 
